@@ -499,7 +499,7 @@ func c14Retry(c *Ctx) {
 	c.verdict(!inCycle || (len(budget) > 0 && cycleCut(budget)), "IssueRetryableHttpRequest:budget", req.Pos(), "every retry passes the attempt < ErrorRetry side of the budget comparison",
 		"the request can be retried without the attempt counter having been compared with ErrorRetry: the number of attempts is not bounded by the budget")
 	// 3. every cycle passes a failure test (err != nil or status >= 500)
-	fail := edgesWhere(fn, func(iff *ssa.If) (bool, bool) {
+	failAcc := func(iff *ssa.If) (bool, bool) {
 		cm, truth, ok := cmpOf(iff.Cond)
 		if !ok {
 			return false, false
@@ -519,8 +519,20 @@ func c14Retry(c *Ctx) {
 			onTrue := p.upper == truth
 			return onTrue, !onTrue
 		}
+		// "status/100 == 5"
+		if bo, isBin := stripNot(iff.Cond).(*ssa.BinOp); isBin && (bo.Op == token.EQL || bo.Op == token.NEQ) {
+			if atoms, lo, _, ok := quotientRange(bo); ok && atoms["call:(*desync.RemoteHTTPBase).IssueHttpRequest#0"] == 1 && lo >= 500 && lo < 600 {
+				onTrue := (bo.Op == token.EQL) == truth
+				return onTrue, !onTrue
+			}
+		}
 		return false, false
-	})
+	}
+	fail := edgesWhere(fn, failAcc)
+	// the failure test may sit behind a predicate ("if !shouldRetry(status, err) { return }")
+	for e := range acceptingEdgesDeep(fn, failAcc, 0) {
+		fail[e] = true
+	}
 	retryStructOK := !inCycle || (len(fail) > 0 && cycleCut(fail))
 	// 4. returns: a non-error return passes the status of the request only when it was not a failure;
 	// the give-up return does not pass a success status
